@@ -252,6 +252,7 @@ MATRIX_CONFIGS = [
     ["--builder-type", "generic"], ["-p", "glr", "--builder-type", "generic", "-g", "arrays"],
     ["--builder-loc-info"], ["-p", "glr", "--builder-loc-info"],
     ["-t", "lalr"], ["--partial-parse", "--no-skip-ws", "--lexical-disamb-most-specific=false"],
+    ["--builder-type", "custom"], ["-p", "glr", "--builder-type", "custom"],
 ]
 
 
